@@ -424,7 +424,7 @@ example : (chanAfter (processMode cfg 2 (str "#c") [(str "+m", [])] x0)).map (·
 -- ... and a later query shows it
 example : (processMode cfg 4 (str "#c") []
       { w := (processMode cfg 2 (str "#c") [(str "+m", [])] x0).w }).direct =
-    [str ":irc.irc 324 pat #c +m +q alice +o alice +h hank +v vic", str ":irc.irc 329 pat #c 0"] := by
+    [str ":irc.irc 324 pat #c +m +q alice +o alice +h hank +v vic", (str ":irc.irc " ++ Reply.RplCreationTime329 (client := str "pat") (channel := str "#c") (creation_time := 0))] := by
   decide
 
 -- half-operator hank may give voice, but not operator, half-operator, protected or founder status
@@ -432,12 +432,12 @@ example : rankAfter (processMode cfg 2 (str "#c") [(str "+v", [str "pat"])] x0) 
   decide
 example : let x := processMode cfg 2 (str "#c") [(str "+o", [str "pat"])] x0
     chanAfter x = some chan ∧ x.queued = [] ∧
-    x.direct = [str ":irc.irc 482 hank #c :You're not channel operator"] := by decide
+    x.direct = [(str ":irc.irc " ++ Reply.ErrChanOpPrivsNeeded482 (client := str "hank") (channel := str "#c"))] := by decide
 example : let x := processMode cfg 2 (str "#c") [(str "+hqa", [str "pat", str "pat", str "pat"])] x0
     chanAfter x = some chan ∧ x.queued = [] ∧
-    x.direct = [str ":irc.irc 482 hank #c :You're not channel operator",
-                str ":irc.irc 482 hank #c :You're not channel operator",
-                str ":irc.irc 482 hank #c :You're not channel operator"] := by decide
+    x.direct = [(str ":irc.irc " ++ Reply.ErrChanOpPrivsNeeded482 (client := str "hank") (channel := str "#c")),
+                (str ":irc.irc " ++ Reply.ErrChanOpPrivsNeeded482 (client := str "hank") (channel := str "#c")),
+                (str ":irc.irc " ++ Reply.ErrChanOpPrivsNeeded482 (client := str "hank") (channel := str "#c"))] := by decide
 
 -- the founder may do all of it; rank lists and member flags move together
 example : let x := processMode cfg 1 (str "#c") [(str "+oa-h", [str "hank", str "hank", str "hank"])] x0
@@ -450,17 +450,17 @@ example : let x := processMode cfg 1 (str "#c") [(str "+oa-h", [str "hank", str 
 -- voice and plain members change nothing and get 482; nothing is announced
 example : let x := processMode cfg 3 (str "#c") [(str "+mk-n+l", [str "key", str "5"])] x0
     chanAfter x = some chan ∧ x.queued = [] ∧ x.direct.length = 4 ∧
-    x.direct.all (· == str ":irc.irc 482 vic #c :You're not channel operator") = true := by decide
+    x.direct.all (· == (str ":irc.irc " ++ Reply.ErrChanOpPrivsNeeded482 (client := str "vic") (channel := str "#c"))) = true := by decide
 example : let x := processMode cfg 4 (str "#c") [(str "+b", [str "bad"])] x0
     chanAfter x = some chan ∧ x.queued = [] ∧
-    x.direct = [str ":irc.irc 482 pat #c :You're not channel operator"] := by decide
+    x.direct = [(str ":irc.irc " ++ Reply.ErrChanOpPrivsNeeded482 (client := str "pat") (channel := str "#c"))] := by decide
 
 -- an outsider gets 442, an unknown channel 403
 example : let x := processMode cfg 5 (str "#c") [(str "+m", [])] x0
     chanAfter x = some chan ∧ x.queued = [] ∧
-    x.direct = [str ":irc.irc 442 out #c :You're not on that channel"] := by decide
+    x.direct = [(str ":irc.irc " ++ Reply.ErrNotOnChannel442 (client := str "out") (channel := str "#c"))] := by decide
 example : (processMode cfg 5 (str "#d") [(str "+m", [])] x0).direct =
-    [str ":irc.irc 403 out #d :No such channel"] := by decide
+    [(str ":irc.irc " ++ Reply.ErrNoSuchChannel403 (client := str "out") (channel := str "#d"))] := by decide
 
 -- key, limit, ban by the half-operator; the mask is completed
 example : let x := processMode cfg 2 (str "#c") [(str "+klb", [str "sesame", str "10", str "bad"])] x0
